@@ -147,6 +147,36 @@ def gen_cases(tier, rng):
         yield Case(h.line(), cls="%d-epochs%s%s" % (epochs, "-push" if cfg.get("push") else "", "-dispose" if h.ev[-1] == "X" else ""))
     # RTSP subscribers across publish / unpublish cycles (DESCRIBE before, during and after inputs; late RTP packets)
     yield from fanout.gen_rtsp_histories(tier, rng, multi_epoch=True)
+    # inputs that never announce a sequence header (key frames cached all the same): the GOPs of such an input must be
+    # gone when it ends - a consumer of a later input never receives them (seed C16r7-1: Clear() that only drops the
+    # GOPs when a remembered header goes away)
+    nohdr = [["key", "inter", "inter", "key", "inter"], ["key", "aac", "inter", "aac"], ["hkey", "hinter", "hkey"],
+             ["meta", "key", "inter", "key"]]
+    for k in range(32 if tier == "quick" else 400):
+        cfg = dict(rng.choice(fanout.CFGS))
+        cfg["rec"] = 1
+        cfg["hook"] = 1
+        cfg["mw"] = rng.choice([0, 0, 1, 8192])
+        h = fanout.Hist(rng, cfg)
+        epochs = rng.choice([2, 3, 4])
+        for e in range(epochs):
+            if rng.random() < 0.5:
+                h.join(rng.choice(kinds))
+            h.start(pat=rng.random() < 0.8)
+            if e + 1 < epochs or rng.random() < 0.5:
+                seq = list(rng.choice(nohdr))
+                cut = rng.randrange(2, len(seq) + 1)
+            else:
+                seq = list(fanout.STREAMS[rng.choice(["av", "video", "hevc"])])
+                cut = rng.randrange(0, len(seq) + 1)
+            for kind in seq[:cut]:
+                if rng.random() < 0.2:
+                    h.join(rng.choice(kinds))
+                h.pub(kind)
+            h.stop()
+            if rng.random() < 0.6:
+                h.join(rng.choice(kinds))
+        yield Case(h.line(), cls="%d-epochs-nohdr" % epochs)
 
 
 def split_impl(c, out):
